@@ -24,10 +24,22 @@ Definition defaulted (c : tcase) (x : val) : bool :=
   | Quant => false
   end.
 
+(* a number is sent to the label of the first boundary >= it (when there is one) *)
+Definition number_ok (c : tcase) (x : val) (l : label) : bool :=
+  match t_kind c with
+  | Qual => true
+  | Quant =>
+      if is_nan x then true
+      else match first_geq x (filter (fun v => py_neq v (t_nan c)) (t_keys c)) with
+           | None => true
+           | Some ld => match impl_label c ld with Some e => label_eqb l e | None => false end
+           end
+  end.
+
 Definition probe_ok (c : tcase) (x : val) (o : out) : bool :=
   match o with
   | OLab l =>
-      existsb (label_eqb l) (label_set c)
+      existsb (label_eqb l) (label_set c) && number_ok c x l
       && (negb (defaulted c x)
           || match impl_label c (get_group (t_gl c) (t_default c)) with
              | Some d => label_eqb l d
